@@ -372,7 +372,19 @@ def check(ctx, rep):
     good = False
     if validator is not None and len(aggs) == 1:
         vb, vi = validator
-        sw = [(bb, i) for bb, i in se.term_info.items() if i.get("k") == "switch" and strip(i["discr"]) == ("discr", strip(vi["term"]))]
+        V = strip(vi["term"])
+        BR = "<std::result::Result<T, E> as std::ops::Try>::branch"
+        sw = []
+        via_try = False
+        for bb, i in se.term_info.items():
+            if i.get("k") != "switch":
+                continue
+            d = strip(i["discr"])
+            if d == ("discr", V):
+                sw.append((bb, i))
+            elif d[0] == "discr" and util.is_call(d[1], BR) and strip(d[1][2][0]) == V:
+                sw.append((bb, i))
+                via_try = True
         if len(sw) == 1:
             tg = dict(sw[0][1]["targets"])
             ok_t = tg.get(0)
@@ -381,11 +393,23 @@ def check(ctx, rep):
             loc, v = se.assigns[(bi, aggs[0][1])]
             ident = strip(v[4][0]) == ("param", 1)
             gate = ok_t is not None and cfg.must_pass_edge(body, (sw[0][0], ok_t), bi)
-            errs = [b for b, _, _ in util.blocks_constructing(body, "std::result::Result", "Err")]
-            epass = bool(errs) and all(cfg.must_pass_edge(body, (sw[0][0], err_t), b) for b in errs)
-            # the error passed on is the validator's
-            ev = [se.assigns[(b, si)][1] for b, si, _ in util.blocks_constructing(body, "std::result::Result", "Err")]
-            esame = all(strip(x[4][0]) == ("field", ("downcast", strip(vi["term"]), 1), 0) for x in ev)
+            if not via_try:
+                errs = [b for b, _, _ in util.blocks_constructing(body, "std::result::Result", "Err")]
+                epass = bool(errs) and all(cfg.must_pass_edge(body, (sw[0][0], err_t), b) for b in errs)
+                ev = [se.assigns[(b, si)][1] for b, si, _ in util.blocks_constructing(body, "std::result::Result", "Err")]
+                esame = all(strip(x[4][0]) == ("field", ("downcast", V, 1), 0) for x in ev)
+            else:
+                # `validator(&key)?`: the residual is converted with From<E> for E (identity) by from_residual
+                fr = [(bb, i) for bb, i in se.term_info.items() if i.get("k") == "call" and "FromResidual" in i["name"]]
+                epass = len(fr) == 1 and cfg.must_pass_edge(body, (sw[0][0], err_t), fr[0][0])
+                esame = False
+                if epass:
+                    a = strip(fr[0][1]["args"][0])
+                    esame = a[0] == "field" and a[1][0] == "downcast" and a[1][2] == 1 and util.is_call(a[1][1], BR)
+                    out_f = fb.ty(body.d["output"]).s
+                    out_v = fb.ty(fb.body(vi["name"]).d["output"]).s
+                    esame = esame and "error::InvalidPublicKeyError>" in out_f and "error::InvalidPublicKeyError>" in out_v
+                    esame = esame and not util.blocks_constructing(body, "error::InvalidPublicKeyError")
             good = ident and gate and epass and esame
     elif validator is None and len(aggs) == 1:
         loc, v = se.assigns[(aggs[0][0], aggs[0][1])]
